@@ -11,7 +11,7 @@ MANIFEST = {
          "uv_loop_close for timer, idle, prepare, check, async, poll, tcp, udp, pipe, signal, fs_event handles and work / udp-send "
          "requests, callbacks as arbitrary scripts): active_handles = |active & ref & !closing| and active_reqs = |requests owed a "
          "callback| at every API boundary, uv_loop_alive <-> the documented condition, uv_run's return value, uv_loop_close busy "
-         "test, ref/unref idempotence.  The model is tied to the working tree by running generated programs (ops from main and "
+         "test, ref/unref idempotence.  Also proved: reqs_inv (partition invariant over every program), run_returns with its exact exception, and that the literal alive <-> documented-condition equivalence is false of the code in three narrow situations (Lean witnesses = the three listed known findings) with the corrected boundary theorems alive_iff_boundary / alive_iff_documented; the macro and loop kernels are regenerated from /repo on every run and proved equal to the model kernels (UvModel.GenEq).  The model is tied to the working tree by running generated programs (ops from main and "
          "from inside every callback, three run modes, UV_METRICS_IDLE_TIME on/off) on the real library under a virtual clock and "
          "a deterministic poller and diffing every return value, callback and observation against the model; independent "
          "monitors evaluate the property's own formula on the implementation log, with ASan/LSan and an fd-table check.",
